@@ -327,4 +327,44 @@ def t2_match(ent, site, extra_text=""):
         for grx in ent[2]:
             if not any(re.search(grx, g) for g in gs):
                 return False, "the guard the audit relies on (/%s/) no longer dominates the site; dominating guards are %s" % (grx, [g[:80] for g in gs])
+    if len(ent) > 3 and ent[3]:
+        prog = getattr(site.body, "program", None)
+        if prog is None:
+            return False, "caller guards cannot be evaluated (no program)"
+        for grx in ent[3]:
+            if not _callers_guarded(prog, site.fn, grx, 1):
+                return False, "the guard the audit relies on at the call sites (/%s/) does not dominate every call path to %s (up to 3 levels)" % (grx, site.fn)
     return True, None
+
+
+_CALLERS = {}
+
+
+def _callers_of(prog, fn):
+    key = id(prog)
+    if key not in _CALLERS:
+        idx = {}
+        for path, b in prog.bodies.items():
+            for bb, t in b.calls():
+                c = t["callee"]
+                if c["k"] == "fndef":
+                    idx.setdefault(callee_name(c), []).append((b, bb, t))
+        _CALLERS[key] = idx
+    return _CALLERS[key].get(fn, [])
+
+
+def _callers_guarded(prog, fn, grx, depth):
+    """every call site of `fn` is dominated by a guard matching grx, or sits in a function all of
+    whose call sites are (recursively, depth <= 3)"""
+    from . import paths
+    cs = _callers_of(prog, fn)
+    if not cs or depth > 3:
+        return False
+    for b, bb, t in cs:
+        eb = ExprBuilder(b)
+        gs = ["%s: %s" % (g[0], show(g[1]) if len(g) > 1 and isinstance(g[1], tuple) else str(g[1:])) for g in paths.guards(b, bb, eb)]
+        if any(re.search(grx, g) for g in gs):
+            continue
+        if not _callers_guarded(prog, b.path, grx, depth + 1):
+            return False
+    return True
